@@ -31,7 +31,11 @@ type CLICase struct {
 	Invalid  bool   `json:"invalid_input"`
 	// ExtraHex: further input files given after the first on the command line (file mode only)
 	ExtraHex []string `json:"extra_input_files_hex,omitempty"`
-	Output   string   `json:"output_shown,omitempty"`
+	// Stale: the -o and -e files exist before the run and hold this many bytes of an earlier, longer result
+	Stale int `json:"stale_output_bytes,omitempty"`
+	// FDLimit: the process runs with this limit on open files (ulimit -n), as under a service manager
+	FDLimit int    `json:"open_file_limit,omitempty"`
+	Output  string `json:"output_shown,omitempty"`
 	Stderr   string `json:"stderr,omitempty"`
 	Report   string `json:"error_report,omitempty"`
 }
@@ -68,7 +72,18 @@ func runCLI(root string, k *CLICase, dir string, id int) cliResult {
 			args = append(args, xp)
 		}
 	}
+	if k.Stale > 0 {
+		// what an earlier run on a bigger document left behind
+		old := bytes.Repeat([]byte("77777 "), k.Stale/6+1)
+		if !k.ToStdout {
+			os.WriteFile(outp, old, 0o644)
+		}
+		os.WriteFile(errp, bytes.Repeat([]byte("{error_type:READ,message:\"stale\",location:\"old\",event_index:7}\n"), k.Stale/64+1), 0o644)
+	}
 	cmd := exec.Command(cliPath(root), args...)
+	if k.FDLimit > 0 {
+		cmd = exec.Command("sh", append([]string{"-c", fmt.Sprintf("ulimit -n %d && exec \"$@\"", k.FDLimit), "sh", cliPath(root)}, args...)...)
+	}
 	var so, se bytes.Buffer
 	cmd.Stdout, cmd.Stderr = &so, &se
 	var res cliResult
@@ -515,6 +530,12 @@ func runC20(c *Ctx) {
 						k.StdinKind = "devnull"
 					}
 				}
+				if (i+fi)%4 == 1 {
+					k.Stale = 100*len(data) + 65536
+					if k.Stale > 4<<20 {
+						k.Stale = 4 << 20
+					}
+				}
 				res := runCLI(c.Root, &k, dir, w*100+fi*2+b2i(stdin))
 				c.Eval(1)
 				if res.err != nil && res.exit == 0 && !res.timedOut {
@@ -544,6 +565,50 @@ func runC20(c *Ctx) {
 			c.Sample(map[string]interface{}{"input": showInput(binary, data), "formats": formats, "invalid": invalid})
 		}
 	})
+	// ---------- more input files in one run than the process may have open at once ----------
+	// (every file is a stream of its own and is finished with before the next; a service manager or a
+	// container commonly runs with a low limit on open files)
+	{
+		var all []*model.Value
+		var files []string
+		okBuild := true
+		for fi := 0; fi < 100 && okBuild; fi++ {
+			doc := []*model.Value{model.StructV(model.Int64V(int64(fi)).WithAnn(model.T("file")).WithField(model.T("n")))}
+			rk := ReadCase{CaseSeed: int64(fi), Binary: fi%2 == 1, P: 0, Vals: doc}
+			d, un, _, err := rk.render()
+			if err != nil || un || rk.selfCheck(d, false) != "" {
+				okBuild = false
+				break
+			}
+			files = append(files, hex.EncodeToString(d))
+			all = append(all, doc...)
+		}
+		if !okBuild {
+			c.Inconclusive("many-input-files: the reference renderer refused a document")
+		} else {
+			for fi, f := range []string{"text", "pretty", "binary", "events", "none"} {
+				k := CLICase{InputHex: files[0], Shown: fmt.Sprintf("100 files {n:file::<i>}, text and binary alternating, open-file limit 32"), Format: f, ExtraHex: files[1:], ToStdout: fi%2 == 0, FDLimit: 32}
+				res := runCLI(c.Root, &k, dir, 9000+fi)
+				c.Eval(1)
+				c.Obs("runs_with_more_files_than_the_open_file_limit", 1)
+				if res.err != nil && res.exit == 0 && !res.timedOut {
+					c.Inconclusive("cannot run the CLI under ulimit -n: " + res.err.Error())
+					break
+				}
+				c.NonTrivial(fmt.Sprintf("many-files|%s", f))
+				if v := judgeCLI(&k, res, all); v != "" {
+					cls := v
+					if j := strings.Index(cls, ": "); j > 0 {
+						cls = cls[:j] + ": " + Class(cls[j+2:])
+					}
+					if len(cls) > 150 {
+						cls = cls[:150]
+					}
+					c.Violate("cli-process", f+":many-files:"+Class(cls), fmt.Sprintf("format=%s input=%s output=%s stderr=%s :: %s", f, k.Shown, k.Output, k.Stderr, v), k, nil)
+				}
+			}
+		}
+	}
 	os.RemoveAll(dir)
 }
 
